@@ -81,9 +81,35 @@ def real_cli():
                    force_down=fd, subprocess=True)
 
 
+def odd_spellings():
+    """The same accepted values written the way a shell script or a user may write them (surrounding blanks,
+    a trailing carriage return from a CRLF script, a plus sign, leading zeros, exponent notation): the file
+    must be byte-identical to the one the canonical spelling gives (and loadable)."""
+    canon = ["--seed=7", "--width=2", "--length=3", "--prob_robot_break=0.1", "--prob_light_break=0.2",
+             "--prob_tile_break=0.3", "--prob_loose_tile=0.4", "--max_reward=6"]
+    variants = [
+        ["--seed=7\r"], ["--seed", " 7"], ["--seed=+7"], ["--seed=007"], ["--seed=7\n"], ["--seed", "7 "],
+        ["--width=2\r"], ["--width=02"], ["--length", "\t3"], ["--max_reward=6\r\n"], ["--max_reward=+6"],
+        ["--prob_robot_break=1e-1"], ["--prob_robot_break=.1"], ["--prob_robot_break=0.10"], ["--prob_robot_break=0.1\r"],
+        ["--prob_light_break", " 0.2"], ["--prob_light_break=+0.2"], ["--prob_tile_break=3e-1"], ["--prob_tile_break=0.3\n"],
+        ["--prob_loose_tile=0.40"], ["--prob_loose_tile=4E-1"], ["-s", "7", "-w", "2", "-l", "3", "-p", "0.1", "-q", "0.2",
+                                                                   "-r", "0.3", "-t", "0.4", "-m", "6"],
+    ]
+    for var in variants:
+        if len(var) > 4:
+            args = var
+        else:
+            key = var[0].split("=")[0]
+            args = [a for a in canon if a.split("=")[0] != key] + var
+        yield dict(kind="spelling", canon=canon, args=args)
+        yield dict(kind="spelling", canon=canon + ["-f"], args=args + ["--force_down"])
+
+
 def phases(tier):
     side = 6 if tier == "quick" else 8
-    return [Phase("real-command-line", enum=real_cli,
+    return [Phase("odd-argument-spellings", enum=odd_spellings,
+                  note="same values, unusual but accepted spellings: output must equal the canonical run byte for byte"),
+            Phase("real-command-line", enum=real_cli,
                   note="python roberta_generator.py ... as a subprocess; bytes compared with the in-process run"),Phase("tall-wide-boards", enum=shaped(tier), note="structural clauses on tall / wide / large boards"),
             Phase("cli-parameter-sets", strategy=lambda: cli_cases(side), examples=(80, 3000)),
             Phase("manual-entry-point", strategy=manual_cases, examples=(40, 1200))]
@@ -214,9 +240,53 @@ def solve_outcomes(v, label, games, budget):
             v.cls("solved" if m1 == "Game solved" else "no_solution")
 
 
+def check_spelling(case, v):
+    r = repo()
+    v.nontrivial = True
+    v.cls("odd_spelling")
+    k0, e0, f0 = boards.run_generator_cli(case["canon"])
+    k1, e1, f1 = boards.run_generator_cli(case["args"])
+    if k0 != "ok":
+        v.inconclusive = "canonical spelling was not accepted"
+        return v
+    if k1 != "ok":
+        if k1 == "exit":
+            v.cls("spelling_rejected_by_argparse")        # not accepted at all: outside the property
+            return v
+        v.fail("generator-raises", f"main({case['args']!r}) raised {type(e1).__name__}: {e1}", sig=type(e1).__name__)
+        return v
+    if sorted(f1) != sorted(f0):
+        v.fail("output-depends-on-argument-spelling", f"main({case['args']!r}) wrote {sorted(f1)} but the canonical "
+                                                      f"spelling {case['canon']!r} wrote {sorted(f0)}")
+        return v
+    # the files may differ in comments (that is not the property's business); what they LOAD into must agree
+    loaded = {}
+    for label, files in (("canonical", f0), ("odd", f1)):
+        (fname, data), = files.items()
+        path = os.path.join(boards.scratch_dir(), "inputs", fname)
+        with open(path, "wb") as f:
+            f.write(data)
+        try:
+            loaded[label] = r.conditionalrewards.read_dict_from_file(path)
+        except Exception as e:
+            v.fail("file-does-not-load", f"main({(case['args'] if label == 'odd' else case['canon'])!r}): {fname}: "
+                                         f"{type(e).__name__}: {str(e)[:150]}", sig=type(e).__name__)
+            return v
+        finally:
+            os.remove(path)
+    if list(loaded["odd"].keys()) != ["game_a", "game_b", "game_c"]:
+        v.fail("three-games", f"main({case['args']!r}): loaded keys {list(loaded['odd'].keys())}")
+    elif loaded["odd"] != loaded["canonical"]:
+        v.fail("output-depends-on-argument-spelling", f"main({case['args']!r}) and main({case['canon']!r}) denote the same "
+                                                      f"parameters but their files load into different games")
+    return v
+
+
 def check_case(case):
     v = Verdict()
     r = repo()
+    if case["kind"] == "spelling":
+        return check_spelling(case, v)
     if case["kind"] == "cli":
         args = boards.cli_args(case["seed"], case["width"], case["length"], case["rb"], case["lb"], case["tb"],
                                case["lt"], case["max_reward"], case["force_down"])
